@@ -41,7 +41,7 @@ D_DC = {"name": "LD", "base": "dataclass", "fields": [{"name": "a", "type": {"k"
 LEAVES = [
     {"k": "leaf", "o": "int"}, {"k": "leaf", "o": "int"}, {"k": "leaf", "o": "float"}, {"k": "leaf", "o": "str"}, {"k": "leaf", "o": "str"},
     {"k": "leaf", "o": "bool"}, {"k": "leaf", "o": "none"}, {"k": "leaf", "o": "none"}, {"k": "leaf", "o": "bytes"}, {"k": "leaf", "o": "decimal"},
-    {"k": "leaf", "o": "date"}, {"k": "leaf", "o": "list"}, {"k": "leaf", "o": "dict"},
+    {"k": "leaf", "o": "date"}, {"k": "leaf", "o": "list"}, {"k": "leaf", "o": "dict"}, {"k": "leaf", "o": "datetime"}, {"k": "leaf", "o": "time"},
     {"k": "con", "o": "int", "c": {"gt": 0}, "m": "class"}, {"k": "con", "o": "int", "c": {"lt": 0}, "m": "class"},
     {"k": "con", "o": "str", "c": {"regex": r"\d+"}, "m": "class"}, {"k": "con", "o": "str", "c": {"regex": r"[\d.]+"}, "m": "class"},
     {"k": "con", "o": "str", "c": {"max_length": 1}, "m": "class"}, {"k": "con", "o": "float", "c": {"ge": 0}, "m": "class"},
@@ -53,6 +53,10 @@ LEAVES = [
 ]
 COMB = {"union": "|", "xor": "^", "and": "&", "not": "~"}
 OPF = {"union": operator.or_, "xor": operator.xor, "and": operator.and_}
+
+# inputs that several builtin converters reject with something other than TypeError/ValueError (AttributeError from the
+# date/time converters on containers, SyntaxError from the container converters on bracketed text that is no literal)
+ODD_REJECTS = [codec.encode(v) for v in ([], [1], ["1", 2], {}, {"a": "1"}, {"a": 1, "b": "x"}, (1, 2), "[1 2]", "{1:", "(1,", "[1, 2", "{'a' 1}", b"[1 2]")]
 
 OPTION_SETS = st.sampled_from([{}, {}, {}, {"no_explicit_cast": True}, {"no_data_loss": True}, {"collect_errors": True}])
 
@@ -89,9 +93,19 @@ def build_comb(comb, args, mode):
     return f(*args), "func"
 
 
+def _arg_verdict(o):
+    """An argument "accepts" when it returns a value; any ordinary exception it raises is its rejection (several builtin
+    converters reject with AttributeError/SyntaxError/KeyError rather than TypeError/ValueError, and the combinators
+    isolate every Exception of an argument).  Hangs and interpreter-limit errors stay inconclusive."""
+    o = oracle.reject_raw(o)
+    if o[0] == "other" and isinstance(o[1], Exception) and not isinstance(o[1], (RecursionError, MemoryError)):
+        return ("perr", o[1])
+    return o
+
+
 def standalone(T, x_spec, opts):
     import utype
-    return oracle.reject_raw(oracle.outcome(utype.type_transform, codec.decode(x_spec), T, opts))
+    return _arg_verdict(oracle.outcome(utype.type_transform, codec.decode(x_spec), T, opts))
 
 
 def run_top(T, x, opts):
@@ -173,6 +187,7 @@ def judge_case(case):
             return dict(info, status="other", fails=fails)
         n_ok = sum(1 for a in accs if a[0] == "ok")
         info["n_accepting"] = n_ok
+        info["odd_rejection"] = any(a[0] == "perr" and not isinstance(a[1], (TypeError, ValueError, ArithmeticError)) for a in accs)
         info["distinct_outcomes"] = len({("ok", codec.canon_value(a[1])) if a[0] == "ok" else ("perr",) for a in accs}) if len(accs) > 1 else 1
         det = {"accepting": [i for i, a in enumerate(accs) if a[0] == "ok"], "how": how,
                "top": "accepted" if top[0] == "ok" else "rejected",
@@ -226,7 +241,7 @@ def judge_case(case):
             cur = codec.decode(vs)
             failed = False
             for t in built:
-                r = oracle.reject_raw(oracle.outcome(utype.type_transform, cur, t, opts))
+                r = _arg_verdict(oracle.outcome(utype.type_transform, cur, t, opts))
                 if r[0] != "ok":
                     failed = True
                     break
@@ -348,10 +363,21 @@ def case_strategy(thorough):
         else:
             args = draw(st.lists(arg, min_size=2, max_size=4 if thorough else 3))
             args = draw(st.permutations(args))
+        if comb in ("union", "xor") and draw(st.integers(0, 9)) == 0:
+            # a date/time leaf (rejects containers with AttributeError) or a container leaf (rejects broken bracketed text with
+            # SyntaxError) next to a leaf that accepts the same input
+            odd = draw(st.sampled_from([{"k": "leaf", "o": "date"}, {"k": "leaf", "o": "datetime"}, {"k": "leaf", "o": "time"},
+                                        {"k": "leaf", "o": "list"}, {"k": "leaf", "o": "dict"}, {"k": "list", "a": {"k": "leaf", "o": "int"}}]))
+            other = draw(st.sampled_from([{"k": "list", "a": {"k": "leaf", "o": "int"}}, {"k": "leaf", "o": "list"}, {"k": "leaf", "o": "dict"},
+                                          {"k": "dict", "key": {"k": "leaf", "o": "str"}, "val": {"k": "leaf", "o": "int"}},
+                                          {"k": "data", "d": D_SCHEMA}, {"k": "leaf", "o": "bytes"}, {"k": "leaf", "o": "str"}]))
+            args = draw(st.permutations([odd, other] + ([draw(leaf)] if draw(st.booleans()) else [])))
+            return {"comb": comb, "args": list(args), "mode": draw(st.sampled_from(["func", "op", "typing"])),
+                    "value": draw(st.sampled_from(ODD_REJECTS)), "options": draw(OPTION_SETS)}
         pool = []
         for a in args:
             pool.append(gen.conforming(a))
-        vals = st.one_of(*pool, *pool, gen.hostile(max_leaves=5))
+        vals = st.one_of(*pool, *pool, gen.hostile(max_leaves=5), st.sampled_from(ODD_REJECTS))
         v = draw(vals.filter(lambda s: not _one_shot_spec(s)))
         return {"comb": comb, "args": list(args), "mode": draw(st.sampled_from(["func", "op", "op", "typing"])),
                 "value": v, "options": draw(OPTION_SETS)}
@@ -367,6 +393,8 @@ def campaign(ctx):
             ctx.label(f"built_by_{r['how']}")
         if r["status"] == "ok":
             ctx.label(f"{case['comb']}_{r.get('top')}")
+            if r.get("odd_rejection"):
+                ctx.label("an_argument_rejects_with_an_unusual_exception")
             if r.get("distinct_outcomes", 1) > 1 or case["comb"] == "not":
                 ctx.nt(case)
                 ctx.sample(f"{case['comb']}-{r.get('top')}", case)
